@@ -690,7 +690,7 @@ TIE_TAC = """Ltac tie := intros;
   end; cbn [andb orb negb];
   first [ reflexivity | (repeat f_equal; lia) | (exfalso; lia) ]."""
 HEAD = """From Coq Require Import Arith Bool Lia.
-From TLV Require Import Base.Ops Base.Tensor Model.Svd Model.SvdConj Proofs.SvdDecisions Proofs.SvdDecisions2.
+From TLV Require Import Base.Ops Base.Tensor Model.Svd Model.SvdConj Proofs.SvdDecisions Proofs.SvdDecisions2 Proofs.SvdDecisions3.
 """ + TIE_TAC + "\n"
 
 
@@ -1000,6 +1000,88 @@ def ties(src):
         return (f"Goal forall ru cu rv cv : nat, dec_flip_pad cu rv = ({pu}, {bu}).\nProof. tie. Qed.\n"
                 f"Goal forall ru cu rv cv : nat, dec_flip_pad rv cu = ({pv}, {bv}).\nProof. tie. Qed.\n")
 
+    def t_flip_roles():
+        """round 8: svd_flip - which factor decides and along which axis the winners are taken (incl. how they are picked out of the
+        deciding factor), which factor is multiplied by conj(signs) and which by the padded signs, orientation of both products"""
+        fn = funs["svd_flip"]
+        top = [st for st in fn.body if isinstance(st, ast.If) and isinstance(st.test, ast.Name) and st.test.id == "u_based_decision"]
+        if len(top) != 1 or not top[0].orelse:
+            raise Untranslatable("`if u_based_decision: ... else: ...` not found")
+        FAC = {"U": "FacU", "V": "FacV"}
+
+        def branch(stmts):
+            am = [st for st in stmts if isinstance(st, ast.Assign) and len(st.targets) == 1 and isinstance(st.targets[0], ast.Name) and is_call(st.value, "argmax")]
+            if len(am) != 1 or len([c for st in stmts for c in ast.walk(st) if is_call(c, "argmax")]) != 1:
+                raise Untranslatable("exactly one `<name> = tl.argmax(...)` per branch")
+            call, winners = am[0].value, am[0].targets[0].id
+            if not (len(call.args) >= 1 and is_call(call.args[0], "abs") and len(call.args[0].args) == 1 and isinstance(call.args[0].args[0], ast.Name)
+                    and call.args[0].args[0].id in FAC):
+                raise Untranslatable("argmax is not taken over tl.abs(U) / tl.abs(V)")
+            X = call.args[0].args[0].id
+            ax = [kw.value for kw in call.keywords if kw.arg == "axis"] + list(call.args[1:2])
+            if len(ax) != 1 or not (isinstance(ax[0], ast.Constant) and ax[0].value in (0, 1) and not isinstance(ax[0].value, bool)):
+                raise Untranslatable("argmax axis is not the constant 0 or 1")
+            axis = ax[0].value
+            # signs = tl.sign(tl.tensor([X[i, j] for (i, j) in zip(p, q)], ...)): the winner index must stand at position `axis`
+            sg = [st for st in stmts if isinstance(st, ast.Assign) and len(st.targets) == 1 and isinstance(st.targets[0], ast.Name)
+                  and st.targets[0].id == "signs" and is_call(st.value, "sign")]
+            comps = [c for st in sg for c in ast.walk(st) if isinstance(c, ast.ListComp)]
+            if len(sg) != 1 or len(comps) != 1 or stmts.index(sg[0]) < stmts.index(am[0]):
+                raise Untranslatable("`signs = tl.sign(tl.tensor([...]))` after the argmax")
+            lc = comps[0]
+            g = lc.generators[0] if len(lc.generators) == 1 else None
+            if g is None or g.ifs or not (isinstance(g.target, ast.Tuple) and len(g.target.elts) == 2 and all(isinstance(x, ast.Name) for x in g.target.elts)) \
+                    or not (is_call(g.iter, "zip") and len(g.iter.args) == 2):
+                raise Untranslatable("winner pick is not `[... for (i, j) in zip(p, q)]`")
+            ij = [x.id for x in g.target.elts]
+            e = lc.elt
+            if not (isinstance(e, ast.Subscript) and isinstance(e.value, ast.Name) and e.value.id == X and isinstance(e.slice, ast.Tuple)
+                    and [getattr(x, "id", None) for x in e.slice.elts] == ij and ij[0] != ij[1]):
+                raise Untranslatable("winner pick does not read <deciding factor>[i, j] with the loop indices in order")
+            zw, zo = g.iter.args[axis], g.iter.args[1 - axis]
+            if not (isinstance(zw, ast.Name) and zw.id == winners):
+                raise Untranslatable("the argmax result is not the index along the argmax axis")
+            if not (is_call(zo, "range") and len(zo.args) == 1 and isinstance(zo.args[0], ast.Subscript) and is_call(zo.args[0].value, "shape")
+                    and len(zo.args[0].value.args) == 1 and isinstance(zo.args[0].value.args[0], ast.Name) and zo.args[0].value.args[0].id == X
+                    and isinstance(zo.args[0].slice, ast.Constant) and zo.args[0].slice.value == 1 - axis):
+                raise Untranslatable("the other index does not run over range(shape(<deciding factor>)[other axis])")
+            # the two products
+            pads = [st for st in stmts if isinstance(st, ast.If)]
+            prods = {}
+            for pos, st in enumerate(stmts):
+                if isinstance(st, ast.Assign) and len(st.targets) == 1 and isinstance(st.targets[0], ast.Name) and st.targets[0].id in FAC:
+                    T, v = st.targets[0].id, st.value
+                    if not (isinstance(v, ast.BinOp) and isinstance(v.op, ast.Mult) and isinstance(v.left, ast.Name) and v.left.id == T):
+                        raise Untranslatable(f"line {st.lineno}: {T} is assigned other than by `{T} = {T} * <sign vector>`")
+                    vec, orient = v.right, "ByCols"
+                    if isinstance(vec, ast.Subscript) and isinstance(vec.slice, ast.Tuple) and len(vec.slice.elts) == 2:
+                        a0, a1 = vec.slice.elts
+                        if isinstance(a0, ast.Slice) and a0.lower is None and a0.upper is None and a0.step is None and isinstance(a1, ast.Constant) and a1.value is None:
+                            vec, orient = vec.value, "ByRows"
+                        else:
+                            raise Untranslatable(f"line {st.lineno}: broadcast subscript is not [:, None]")
+                    if is_call(vec, "conj") and len(vec.args) == 1 and isinstance(vec.args[0], ast.Name) and vec.args[0].id == "signs":
+                        role = "conj"
+                        if pads and pos > stmts.index(pads[0]):
+                            raise Untranslatable("conj(signs) is applied after the padding")
+                    elif (isinstance(vec, ast.Name) and vec.id == "signs") or \
+                            (isinstance(vec, ast.Subscript) and isinstance(vec.value, ast.Name) and vec.value.id == "signs" and isinstance(vec.slice, ast.Slice)):
+                        role = "plain"
+                        if pads and pos < stmts.index(pads[0]):
+                            raise Untranslatable("the plain signs are applied before the padding")
+                    else:
+                        raise Untranslatable(f"line {st.lineno}: factor of the product is neither conj(signs) nor signs[...]")
+                    if T in prods or role in [r_ for (r_, _) in prods.values()]:
+                        raise Untranslatable("a factor is multiplied twice / a role is used twice")
+                    prods[T] = (role, orient)
+            if set(prods) != {"U", "V"}:
+                raise Untranslatable("both U and V must be multiplied exactly once")
+            cjf = next(T for T, (r_, _) in prods.items() if r_ == "conj")
+            plain = next(T for T, (r_, _) in prods.items() if r_ == "plain")
+            return f"({FAC[X]}, {axis}, {FAC[cjf]}, {FAC[plain]}, {prods['U'][1]}, {prods['V'][1]})"
+        return (f"Goal dec_flip_roles true = {branch(top[0].body)}.\nProof. reflexivity. Qed.\n"
+                f"Goal dec_flip_roles false = {branch(top[0].orelse)}.\nProof. reflexivity. Qed.\n")
+
     def t_mask():
         """the imputation loop of svd_interface: iteration count, shape of St, number of diagonal entries written"""
         fn = funs["svd_interface"]
@@ -1119,6 +1201,7 @@ def ties(src):
     attempt("randomized_svd", t_randomized)
     attempt("make_svd_non_negative", t_nn)
     attempt("svd_flip", t_flip)
+    attempt("svd_flip_roles", t_flip_roles)
     attempt("svd_interface_mask_loop", t_mask)
     attempt("randomized_range_finder", t_range_finder)
     return out
@@ -1126,23 +1209,30 @@ def ties(src):
 
 
 def run_ast_tie(chk):
+    """primary: goals generated from the Python ast, proved for all naturals.  A tie that cannot be translated or whose goal does
+    not prove falls back on a SEMANTIC comparison (harness/props/C05_fallback.py): the decisions of the current code observed
+    by execution on a finite box and compared with the model's decision functions inside Coq, or - for the value-level ties -
+    the direct differential cases of this run (resolved in run() by resolve_pending_ties).  Only a tie that also fails its
+    fallback is broken."""
     import subprocess, shutil
+    from harness.props import C05_fallback as FB
     src_path = os.path.join(C.REPO, "tensorly", "tenalg", "svd.py")
     d = os.path.join(C.BUILD, "cases", "C05", f"ast_{os.getpid()}")
     shutil.rmtree(d, ignore_errors=True); os.makedirs(d, exist_ok=True)
-    res = {"proved": [], "untranslated": [], "skipped": []}
+    res = {"proved": [], "untranslated": [], "skipped": [], "fallback_box": {}, "fallback_pending": {}}
+    chk.cov["ast_tie"] = res
     procs = []
     try:
         items = ties(open(src_path).read())
     except SyntaxError as e:
         chk.broken.append({"what": "ast tie: tensorly/tenalg/svd.py does not parse", "detail": str(e)})
         return res
+    need = []          # (name, what, detail) of ties whose primary form failed
     for name, text, why in items:
         if text is None:
-            # FAIL CLOSED (round 7): a source the translator no longer understands is a broken tie, not a silent loss of coverage
+            # FAIL CLOSED (round 7): a source the translator no longer understands is a broken tie unless the semantic fallback holds (round 8)
             res["untranslated"].append(f"{name}: {why}")
-            chk.broken.append({"what": f"ast tie: tensorly.tenalg.svd.{name} can no longer be translated into the decision logic of the model (fail closed)",
-                               "detail": why})
+            need.append((name, f"ast tie: tensorly.tenalg.svd.{name} can no longer be translated into the decision logic of the model (fail closed)", why))
             continue
         fn = os.path.join(d, f"Tie_{name}.v")
         open(fn, "w").write(text)
@@ -1155,13 +1245,53 @@ def run_ast_tie(chk):
         elif p_.returncode in (124, 137, -9, -15):
             res["skipped"].append(name)
         else:
-            chk.broken.append({"what": f"ast tie: the decision logic of tensorly.tenalg.svd.{name} differs from Model/Svd.v (generated goal does not prove)",
-                               "detail": {"goal_file": open(fn).read()[-1500:], "coqc": (out + err)[-1200:]}})
+            need.append((name, f"ast tie: the decision logic of tensorly.tenalg.svd.{name} differs from Model/Svd.v (generated goal does not prove)",
+                         {"goal_file": open(fn).read()[-1500:], "coqc": (out + err)[-1200:]}))
+    for name, what, detail in need:
+        if name in FB.VALUE_LEVEL:
+            res["fallback_pending"][name] = {"what": what, "detail": detail}
+            continue
+        text, n_obs = FB.box_for(name)
+        if text is None:
+            chk.broken.append({"what": what, "detail": detail, "fallback": f"not available: {n_obs}"})
+            continue
+        fn = os.path.join(d, f"Box_{name}.v")
+        open(fn, "w").write(text)
+        r = None
+        for _attempt in range(2):
+            r = subprocess.run(["timeout", "300", "coqc", "-w", "none", "-R", os.path.join(C.COQ, "theories"), "TLV", fn], capture_output=True, text=True, cwd=d)
+            if r.returncode in (0, 1):
+                break
+        if r.returncode == 0:
+            res["fallback_box"][name] = n_obs
+            chk.notes.append(f"ast tie {name}: source restructured ({str(detail)[:120]}); decisions observed on {n_obs} requests equal the model's (finite box, vm_compute)")
+        elif r.returncode == 1:
+            chk.broken.append({"what": what + "; the decisions OBSERVED by executing the current code on a finite box also differ from the model's",
+                               "detail": detail, "fallback": {"box_file": text[-1500:], "coqc": (r.stdout + r.stderr)[-800:]}})
+        else:
+            chk.broken.append({"what": what + "; the finite-box fallback was not evaluated", "detail": detail, "fallback": f"coqc rc {r.returncode}"})
     if not any(b.get("what", "").startswith("ast tie") for b in chk.broken):
         shutil.rmtree(d, ignore_errors=True)
-    chk.cov["ast_tie"] = res
-    chk.checker_cmds.append("coqc on goals generated from the Python ast of tensorly/tenalg/svd.py (decision logic = Proofs/SvdDecisions.v)")
+    chk.checker_cmds.append("coqc on goals generated from the Python ast of tensorly/tenalg/svd.py (decision logic = Proofs/SvdDecisions*.v); "
+                            "fallback for a restructured source: decisions observed by execution on a finite box, compared by vm_compute")
     return res
+
+
+def resolve_pending_ties(chk, dmeta, dfail, evaluated):
+    """value-level ties (svd_flip, make_svd_non_negative, randomized_range_finder) whose primary form failed: resolved by the direct
+    differential cases of this run (whole-function comparison with the model inside Coq)"""
+    from harness.props import C05_fallback as FB
+    res = chk.cov.get("ast_tie", {})
+    pending = res.get("fallback_pending") or {}
+    if not pending:
+        return
+    ok, bad = FB.resolve_value_level({k: str(v["detail"])[:300] for k, v in pending.items()}, dmeta, dfail, evaluated)
+    for name, n_ in ok.items():
+        res.setdefault("fallback_differential", {})[name] = n_
+        chk.notes.append(f"ast tie {name}: source restructured; {n_} direct differential cases of the same function agree with the model")
+    for name, why in bad.items():
+        chk.broken.append({"what": pending[name]["what"], "detail": pending[name]["detail"], "fallback": why})
+    res["fallback_pending"] = {}
 
 
 # ----------------------------------------------------------------------------- shard retry (local helper)
@@ -1445,6 +1575,7 @@ def run(chk):
         chk.broken.append({"what": "correspondence corr:C05 (direct) shard not evaluated", "detail": b})
     for i in sorted(dfail):
         chk.disagreement("corr:C05 direct (Model/Svd.v svd_flip / symeig_svd vs tensorly/tenalg/svd.py)", dmeta[i])
+    resolve_pending_ties(chk, dmeta, dfail, evaluated=not dbroken)
     lap("direct cases + shards")
     chk.cov["traces_validated_against_impl"] = n_eval + dn
     chk.cov["tape_missing_skipped"] = skipped_tape
